@@ -1,5 +1,6 @@
 use std::cell::RefCell;
-use std::collections::BTreeMap;
+
+use indexmap::IndexMap;
 use std::sync::Arc;
 
 use crate::ast::{Configuration, ConfiguredValue};
@@ -37,7 +38,7 @@ fn load_css(mut args: ArgumentResult, visitor: &mut Visitor) -> SassResult<()> {
     if let Some(with) = with {
         visitor.emit_warning("`grass` does not currently support the $with parameter of load-css. This file will be imported the same way it would using `@import`.", args.span());
 
-        let mut values = BTreeMap::new();
+        let mut values = IndexMap::new();
         for (key, value) in with {
             let name =
                 Identifier::from(key.node.assert_string_with_name("with key", args.span())?.0);
